@@ -84,6 +84,8 @@ def zone_tree_for(z, nest):
         kids = [dict(name="North", type="Site", children=[leaf(1)])] + [leaf(k) for k in zs if k != 1]
     else:
         kids = [leaf(k) for k in zs]
+        if nest == "treerev":
+            kids = kids[::-1]
     return dict(name="Site", type="Site", children=kids)
 
 
@@ -105,7 +107,7 @@ def request(S, z, ladder, emb: Emb, with_units=False, nest=False, twin=0):
                   heat_flow=num(emb.Q(70.0), "kW"), dt_cont=num(emb.dT(u.get("dtc", 0)), "degC"), htc=num(1.0, "kW/m2K"), price=num(1.0, "$/MWh"),
                   active=bool(u.get("active", True))) for u in ladder]
     req = dict(streams=streams, utilities=utils, options={"DT_CONT": emb.dT(50), "DT_PHASE_CHANGE": emb.dT(10)})
-    if nest in ("tree", "subsite", "community"):
+    if nest in ("tree", "treerev", "subsite", "community"):
         req["zone_tree"] = zone_tree_for(z, nest)
     if nest == "ops":
         req["options"]["DO_DIRECT_OPERATION_TARGETING"] = True
@@ -195,7 +197,7 @@ def graphs_differ(base_sig, var_sig, g, emb_b: Emb, emb_v: Emb):
 def one_run(g, S, z, ladder, emb, extra_checks, twin=0):
     run = dict(g=g, S=S, z=z, recs=[], err="", dtDefault=60, py=[])
     try:
-        nest = g if g in ("dup", "tree", "subsite", "community", "ops") else g == "nest"
+        nest = g if g in ("dup", "tree", "treerev", "subsite", "community", "ops") else g == "nest"
         req = request(S, z, ladder, emb, with_units=(g == "perm"), nest=nest, twin=twin)
         out, mz = _OP["service"](req, project_name=("Town" if g == "community" else "Site"), is_return_full_results=True)
         recs = project(out, emb, nest)
@@ -224,7 +226,7 @@ def one_run(g, S, z, ladder, emb, extra_checks, twin=0):
             run["err"] = "non-finite number in a record"
         else:
             run["recs"] = recs
-        if g in ("base", "perm", "split", "split2", "parallel", "zoneswap", "translate", "scale", "tree", "community"):
+        if g in ("base", "perm", "split", "split2", "parallel", "zoneswap", "translate", "scale", "tree", "treerev", "community"):
             run["gsig"] = graph_signature(out, emb)
         if extra_checks:
             # C14 structural clauses that are about the Python object, not about numbers
